@@ -10,7 +10,9 @@
 
    Deviation "ExitCallbackPopDropsNewEntry": the loop runs front() unlocked and pops the front
    afterwards - an entry pushed meanwhile is popped unexecuted and the old one runs again (the code
-   at the pinned commit).                                                                      *)
+   at the pinned commit).
+   Deviation "RegisterChecksBeforeLock": add_thread_exit_callback tests `ran or terminated` before it
+   takes the lock and pushes afterwards without re-testing (seeded change C13-2).               *)
 EXTENDS Naturals, Sequences, FiniteSets
 CONSTANTS UserCallbacks, Deviations
 VARIABLES list,      \* sequence of callbacks, front first: "user" or "join"
@@ -47,9 +49,15 @@ Join ==
     /\ jpc = "start"
     /\ IF ran \/ tpc = "terminated"
           THEN jpc' = "done" /\ UNCHANGED list                 \* refused: thread already finished
-          ELSE jpc' = "waiting" /\ list' = <<"join">> \o list    \* push_front
+          ELSE IF "RegisterChecksBeforeLock" \in Deviations
+                  THEN jpc' = "checked" /\ UNCHANGED list        \* test passed, lock not yet taken
+                  ELSE jpc' = "waiting" /\ list' = <<"join">> \o list    \* push_front
     /\ UNCHANGED <<tpc, cur, ran, joinCbRuns, userRuns>>
-Next == BodyEnd \/ LoopStep \/ RunCb \/ Terminate \/ Join
+\* (deviation) the push happens later, under the lock (not while the target is between LoopStep and RunCb
+\* bookkeeping: those hold the lock only inside LoopStep, so any moment between actions is possible)
+JoinPush == /\ jpc = "checked" /\ jpc' = "waiting" /\ list' = <<"join">> \o list
+            /\ UNCHANGED <<tpc, cur, ran, joinCbRuns, userRuns>>
+Next == BodyEnd \/ LoopStep \/ RunCb \/ Terminate \/ Join \/ JoinPush
 Spec == Init /\ [][Next]_vars /\ WF_vars(Next)
 
 JoinReturns == <>(jpc = "done")
